@@ -72,6 +72,20 @@ def directed_cases():
     b = CumulativeCell(D(2020, 1, 1), D(2020, 12, 31), D(2020, 12, 31), {"paid_loss": 20, "earned_premium": 100},
                        Metadata(loss_details={"cov": "b"}))
     out.append(([a, b], False, {"kind": "directed:S1", "slice_diff": "loss_details"}))
+    # incremental slices on different evaluation cadences: the increments ending 2020-12-31 start at
+    # 2019-12-31 (NY, FL) and at 2020-06-30 (TX): three output cells, one per (period, eval, prev)
+    from bermuda import IncrementalCell
+
+    def inc(state, prev, ev, v):
+        return IncrementalCell(period_start=D(2020, 1, 1), period_end=D(2020, 12, 31), prev_evaluation_date=prev,
+                               evaluation_date=ev, values={"paid_loss": v}, metadata=Metadata(details={"state": state}))
+    cad = [inc("NY", D(2019, 12, 31), D(2020, 12, 31), 100), inc("FL", D(2019, 12, 31), D(2020, 12, 31), 40),
+           inc("TX", D(2019, 12, 31), D(2020, 6, 30), 7), inc("TX", D(2020, 6, 30), D(2020, 12, 31), 5)]
+    out.append((cad, True, {"kind": "directed:cadence", "slice_diff": "details", "basis": "inc"}))
+    falsy = [CumulativeCell(D(2020, 1, 1), D(2020, 3, 31), D(2020, 3, 31), {"paid_loss": v},
+                            Metadata(details={"lob": lob, "zero": z, "flag": False, "empty": "", "f": 0.0}))
+             for lob, v, z in (("a", 10, 0), ("b", 20, 0), ("c", 30, False))]
+    out.append((falsy, True, {"kind": "directed:falsy-details", "slice_diff": "details"}))
     return out
 
 
@@ -103,7 +117,7 @@ def run(ctx):
     ctx.rule = ("multi-slice triangles (1-4 slices differing in one metadata attribute -- each of the eight incl. only "
                 "loss_details -- or several; shared/partly shared None-valued details; 1000 vs 1000.0 limits), any subset of the "
                 "26 registered field names per slice (ratio fields with/without their weight key), int / dyadic float / int64 / "
-                "float64-array values (uniform or mixed per slice), cumulative and incremental, summarize_premium True/False, "
+                "float64-array values (uniform or mixed per slice), cumulative and incremental (incl. slices on different evaluation cadences, so that cells share period and evaluation date but differ in prev), falsy detail values 0/0.0/False/\"\", summarize_premium True/False, "
                 "regular/ragged/holey/irregular/single layouts with partially overlapping slices; malformed: mixed currency, "
                 "mixed risk basis, unregistered field, upper-case field, explicit None values.  Non-trivial = distinct case with "
                 ">= 2 cells or a refusal.")
@@ -154,6 +168,8 @@ def run(ctx):
         ctx.hist(f"kind:{info['kind'].split(':')[0]}")
         ctx.hist(f"slice_diff:{info.get('slice_diff')}")
         ctx.hist(f"basis:{info.get('basis', 'cum')}/prem={prem}")
+        if info.get("mixed_prev") or info["kind"] == "directed:cadence":
+            ctx.hist("incremental:same (period, eval) with different prev")
         ctx.hist("result:" + ("ok" if status == "ok" else type(res).__name__))
         ctx.count(evaluations=1)
         if len(tcells) >= 2 or status == "err":
